@@ -10,6 +10,27 @@ CHECKS = {
  "C04": dict(cat="exploration", tech="runtime reference-model monitor: NumPy shadow executed in lockstep, compared after every statement (values, pairwise shares_memory, .base, identity, constant flag)",
              text="Random histories of view creation, reads and in-place updates (set-item of every index kind, augmented assignment, ufunc out=/where=, .shape assignment) run on tensors and, statement by statement, on NumPy arrays; after every statement every live tensor is compared with its shadow array exactly, every pair's np.shares_memory with the shadow pair's, .base with the name owning the shadow's root array, and object identity / constant flag with their values at creation.",
              note="Trusted: NumPy as the specification of view/in-place semantics. Empty arrays are excluded from sharing/base checks; view functions are applied to tensors only; histories stay in one graph epoch.", ref="3/C04"),
+ "C02": dict(cat="exploration", tech="runtime differential monitor per operation: longdouble finite-difference VJP oracle over the op registry x option lattice, gradient shape/dtype invariant, exact kink-convention checks",
+             text="Every spec of the op table (all public differentiable entry points; Operation subclasses not reached are listed in the evidence) is driven with seeded single-op programs over operand dtypes/layouts/0-d/empty shapes and the op's legal options, back-propagated with a dense random cotangent and judged against 5-point+Richardson finite differences in longdouble at tau=1e-11*S (five orders below the suite's tolerance), plus exact checks of the documented conventions at kinks.",
+             note="Trusted: NumPy longdouble evaluation of the namesake/closed form; domain predicates keep operands in the interior of the differentiable domain; float32/16 judged at their own precision.", ref="3/C02"),
+ "C03": dict(cat="exploration", tech="runtime differential monitor: the same call executed by NumPy on the underlying arrays (exact value/shape/dtype parity), tracked and under no_autodiff",
+             text="Seeded calls of every function/method/operator with a NumPy namesake over the operand lattice {bool,int8..int64,uint8,float16/32/64} x {tensor, ndarray, NumPy scalar, Python scalar} x {0-d, empty, broadcast, non-contiguous} with special values and the dtype/out/where/axis/keepdims options are compared bit-for-bit with NumPy's own result, and again under no_autodiff.",
+             note="Trusted: NumPy 2.x as the specification. Calls NumPy rejects are skipped; MyGrad-only rejections are recorded, not judged. Known finding: Python-scalar promotion (listed in known_findings.json).", ref="3/C03"),
+ "C05": dict(cat="exploration", tech="runtime differential monitor over in-place/view histories: longdouble finite differences of the NumPy program with perturbation injected into the owner's memory at the family's epoch start",
+             text="Random histories of views, reads before/after mutation and in-place updates (all index kinds, augmented ops, out=/where=, .shape) followed by a weighted read-out and backward; every non-constant float tensor alive at the end is judged against finite differences of the identical NumPy program, perturbing the memory the tensor covers right after the last in-place statement on its view family (the statement's 'equivalent purely functional program').",
+             note="Trusted: NumPy in-place semantics + longdouble evaluation; constant tensors are never in-place targets here (C10).", ref="3/C05"),
+ "C06": dict(cat="exploration", tech="runtime invariant monitor after backward: view gradients vs NumPy index map of the view chain applied to the base gradient (value, availability, shares_memory), pairwise gradient aliasing",
+             text="Random programs over bases of every layout with chains of view ops, consumed in random order through consumers that deliver gradients in different layouts/orders; after backward every view's gradient must be available iff the base's is, equal the base gradient gathered through the NumPy-computed index map, and share memory with it; unrelated tensors' gradients must not alias. The evidence lists the (first contributing op, layout) pairs actually observed at Operation.backward.",
+             note="Functional programs only; empty tensors excluded from sharing checks.", ref="3/C06"),
+ "C08": dict(cat="exploration", tech="runtime invariant monitor on hooked lock state: I1/I2 evaluated from observed operation liveness (weakrefs) after every statement and at quiescence; GC injection via sys.monitoring in the thorough tier",
+             text="Histories over user arrays (owned/views/read-only) and tensors (copies, copy=False wrappers, views): ops, out=, in-place updates, failing ops, guard/no_autodiff scopes, user views taken while locked, backward/clear_graph, del in random order, reference cycles, gc. After every statement: every live guarded op with an uncleared upstream has all its recorded arrays read-only (I1); every array no live op refers to (nor to its owner) has its original flag (I2); at quiescence all arrays are back to their original flags.",
+             note="Flag unspecified between 'partly cleared' and 'op dead' (not judged). Arrays enter I2's range when MyGrad is asked to guard them. Known finding: user-made read-only views of writeable owners (known_findings.json).", ref="3/C08"),
+ "C11": dict(cat="exploration", tech="runtime metamorphic monitor: the same call re-executed under every applicable spelling on identical operands, results and gradients compared bit-for-bit; enumerated negative half over the registries",
+             text="For seeded calls, every applicable spelling (mg.f, np.f via __array_ufunc__/__array_function__, Tensor method, operator/reflected operator, augmented assignment, out=Tensor) is executed on fresh copies of identical operands with the same cotangent; values, dtype, constant flag and all leaf gradients must be identical. The bool-only/const-only ufunc registries and the no-diff function registry are enumerated: non-Tensor results, ValueError on non-constant tensors for the rounding/modulo family.",
+             note="Spellings are compared with each other (C03 compares with NumPy).", ref="3/C11"),
+ "C13": dict(cat="fault_enumeration", tech="fault injection at the kernel boundary (natural failing statements + raise-before/after-kernel via wrapped Operation.__call__) at every program position, with snapshot-diff and fault-free differential monitors",
+             text="For generated in-place/view programs, at every statement position and for every fault kind of a 26-entry catalogue one failing statement aimed at a live tensor is inserted; the snapshot (bytes, flags, base/creator identity, consumers, writeability) of every live tensor and caller array must be identical right before and after the exception, and the program's final values and gradients must be bit-identical to the fault-free run.",
+             note="Faults only at the kernel boundary of the failing statement's own operation; statements that do not raise are counted, not judged.", ref="3/C13"),
 }
 NA_REASON = "check under construction (build phase in progress); will be claimed once its monitor is validated on the unchanged tree"
 checks, na = [], []
